@@ -138,6 +138,9 @@ R.macro('CACHE_OF', ['obj'], 'THE_CACHE()')          # the cache object under ve
 SAVE_FRAME = [C("DIRS_SAME_EXCEPT(task.cache_key)", 'only the task\'s own key directory may appear', serves=('C08', 'C06')),
               C("FILES_SAME_EXCEPT(task.cache_key)", 'only files inside the task\'s own key directory change', serves=('C08', 'C06'))]
 R.contract(f'{PC}.save_result', self_type='Obj[PickleCache]', params={'storage': 'Storage', 'task': 'Inst', 'result': 'Val'},
+    fault_sites=True,
+    crash_cond=[C("(task.cache_key not in DIRS) or ((fid(task.cache_key, DATA_NAME()) in FGOOD) and ((pickle_inv(FGOOD[fid(task.cache_key, DATA_NAME())]) == result) or ((fid(task.cache_key, DATA_NAME()) in old(FGOOD)) and (FGOOD[fid(task.cache_key, DATA_NAME())] == old(FGOOD)[fid(task.cache_key, DATA_NAME())]))))",
+                  'KILLED HERE: the data file is complete (new or untouched old value) whenever the entry looks cached', serves=('C13',))],
     ensures=[C("(fid(task.cache_key, DATA_NAME()) in FGOOD) and (pickle_inv(FGOOD[fid(task.cache_key, DATA_NAME())]) == result)", 'the pickled value is completely written (what a later load reads back is this value)', serves=('C06',)),
              C("forall('FId', lambda f: implies(f != fid(task.cache_key, DATA_NAME()), ((f in FGOOD) == (f in old(FGOOD))) and implies(f in FGOOD, FGOOD[f] == old(FGOOD)[f]) and ((f in FBAD) == (f in old(FBAD)))))", 'no other file changes'),
              C("DIRS == sadd(old(DIRS), task.cache_key)", 'the key directory exists')],
@@ -203,3 +206,82 @@ for meth, params, ret, extra in [('is_cached', {'storage': 'Storage', 'task': 'I
     R.contract(f'{NC}.{meth}', self_type='Obj[NullCache]', params=params, returns=ret,
         ensures=[C(e, '', serves=('C08',)) for e in extra] + [C("(DIRS == old(DIRS)) and FILES_SAME()", 'a NullCache never touches the storage', serves=('C08',))], frame=[])
 R.cls(NC, fields={})
+
+# ---- the abstract per-task cache (task._lt.cache): behaves like BaseCache for cacheable types, is inert for cache=None types
+CAK = 'labtech.types:Cache'
+R.cls(CAK, fields={})
+R.records['Inst'].obj_attrs['_lt.cache'] = 'Cache'
+R.record('Type', obj_attrs={'_lt.cache': 'Cache'}, pure={'__qualname__': 'qualname(self)'})
+R.macro('CACHEABLE', ['task'], 'cacheable(type_of_Task(Inst_to_Task(task)))')
+R.contract(f'{CAK}.is_cached', abstract=True, self_type='Obj[Cache]', params={'storage': 'Storage', 'task': 'Inst'}, returns='Bool',
+    ensures=[C("result == (CACHEABLE(task) and (task.cache_key in DIRS))", 'cached iff the type caches and its key directory exists', serves=('C06', 'C08'))],
+    raises={'StorageError': []}, frame=[])
+R.contract(f'{CAK}.save', abstract=True, self_type='Obj[Cache]', params={'storage': 'Storage', 'task': 'Inst', 'result': 'Res'},
+    ensures=[C("implies(CACHEABLE(task), LOADABLE(THE_CACHE(), task, result) and (task.cache_key in DIRS) and DIRS_SAME_EXCEPT(task.cache_key) and FILES_SAME_EXCEPT(task.cache_key))", 'caching types: the entry is written under the task\'s own key, nothing else changes', serves=('C06', 'C08')),
+             C("implies(not CACHEABLE(task), (DIRS == old(DIRS)) and FILES_SAME())", 'cache=None types never persist anything', serves=('C08',))],
+    raises={'BaseException': [C("DIRS_SAME_EXCEPT(task.cache_key) and FILES_SAME_EXCEPT(task.cache_key)", 'a failed save touches only the task\'s own entry', serves=('C08',)),
+                              C("implies(not CACHEABLE(task), (DIRS == old(DIRS)) and FILES_SAME())", 'cache=None types never persist anything', serves=('C08',))]},
+    frame=FSFRAME + ['Handle.pending'])
+R.contract(f'{CAK}.load_result_with_meta', abstract=True, self_type='Obj[Cache]', params={'storage': 'Storage', 'task': 'Inst'}, returns='Res',
+    ensures=[C("forall('Res', lambda r: implies(old(LOADABLE(THE_CACHE(), task, r)), (result.value == r.value) and (result.meta == r.meta)))", 'CACHE HIT', serves=('C06',)),
+             C("FILES_SAME() and DIRS_SAME_EXCEPT(task.cache_key)", 'a load changes no file', serves=('C08',))],
+    raises={'Exception': [C("FILES_SAME() and DIRS_SAME_EXCEPT(task.cache_key)", 'a failed load changes no file', serves=('C08',))]},
+    frame=FSFRAME + ['Handle.pending'])
+R.contract(f'{CAK}.delete', abstract=True, self_type='Obj[Cache]', params={'storage': 'Storage', 'task': 'Inst'},
+    ensures=[C("implies(CACHEABLE(task), (DIRS == sdel(old(DIRS), task.cache_key)) and FILES_SAME_EXCEPT(task.cache_key))", 'exactly the task\'s own entry disappears', serves=('C08',)),
+             C("implies(not CACHEABLE(task), (DIRS == old(DIRS)) and FILES_SAME())", 'cache=None: nothing to delete', serves=('C08',))],
+    raises={'StorageError': [], 'OSError': []}, frame=FSFRAME)
+
+# ---- run_or_load_task (runners/base.py)
+R.func('time_diff', ['Time', 'Time'], 'Dur')
+R.record('CurProc', mutable={'name': 'Str'})
+R.contract('trusted:multiprocessing.current_process', trusted=True, params={}, returns='CurProc', pure=True, defn='THE_PROCESS()')
+R.func('THE_PROCESS', [], 'CurProc')
+R.contract('trusted:datetime.now', trusted=True, params={}, returns='Time', frame=[])
+R.transparent_cms |= {'optional_mlflow'}
+R.globals['RUN_CALLS'] = 'Int'      # GHOST: how many times user run() was entered
+R.contract('trusted:<task.run>', trusted=True, self_type='Inst', params={}, returns='Val',
+    ensures=["RUN_CALLS == old(RUN_CALLS) + 1"], raises={'BaseException': ["RUN_CALLS == old(RUN_CALLS) + 1"]}, frame=['@RUN_CALLS'],
+    note='user code (A-run)')
+R.alias('Inst', 'run', 'trusted:<task.run>')
+R.alias('Inst', 'set_context', 'labtech.tasks:_task_set_context')
+R.contract('labtech.tasks:_task_set_context', self_type='Inst', params={'context': 'Ctx'},
+    ensures=["forall('Inst', lambda i: i.context == (some(context) if i == self else old(i.context)))"], frame=['Inst.context'])
+
+rolt = R.contracts['labtech.runners.base:run_or_load_task']
+rolt.requires = []
+rolt.ensures = rolt.ensures + [
+    C("implies(use_cache, (RUN_CALLS == old(RUN_CALLS)) and FILES_SAME() and DIRS_SAME_EXCEPT(task.cache_key))", 'LOAD: run() is not called and nothing is written', serves=('C03', 'C06', 'C08')),
+    C("implies(use_cache, forall('Res', lambda r: implies(old(LOADABLE(THE_CACHE(), task, r)), (result.value == r.value) and (result.meta == r.meta))))", 'LOAD returns exactly what was stored for this task', serves=('C06',)),
+    C("implies(not use_cache, RUN_CALLS == old(RUN_CALLS) + 1)", 'EXECUTE: run() is called exactly once', serves=('C03',)),
+    C("implies((not use_cache) and CACHEABLE(task), LOADABLE(THE_CACHE(), task, result) and (task.cache_key in DIRS))", 'EXECUTE: the returned result is what was saved under the task\'s own key', serves=('C06',)),
+    C("DIRS_SAME_EXCEPT(task.cache_key) and FILES_SAME_EXCEPT(task.cache_key)", 'only the task\'s own entry may change', serves=('C08',)),
+    C("THE_PROCESS().name == old(THE_PROCESS().name)", 'the process name is restored', serves=('C14',)),
+]
+rolt.raises = {'BaseException': [C("DIRS_SAME_EXCEPT(task.cache_key) and FILES_SAME_EXCEPT(task.cache_key)", 'only the task\'s own entry may change', serves=('C08',)),
+                                 C("THE_PROCESS().name == old(THE_PROCESS().name)", 'the process name is restored', serves=('C14',))]}
+rolt.frame = ['Inst.context', '@RUN_CALLS', 'CurProc.name', 'Handle.pending'] + FSFRAME
+rolt.at_call = {'run': [C("(task.context == some(filtered_context))", 'the context handed by the runner is set on the task before run() is called', serves=('C16',))]}
+rolt.cand_locals = ('task',)
+
+# ---- Lab cache operations (labtech/lab.py)
+LABK = 'labtech.lab:Lab'
+TCK = 'labtech.lab:TaskCoordinator'
+R.contract(f'{LABK}.is_cached', self_type='Obj[Lab]', params={'task': 'Inst'}, returns='Bool', pure=True,
+    ensures=[C("result == (CACHEABLE(task) and (task.cache_key in DIRS))", 'is_cached reports exactly the presence of the task\'s own entry', serves=('C06', 'C08')),
+             C("(DIRS == old(DIRS)) and FILES_SAME()", 'a query changes nothing', serves=('C08',))],
+    raises={'StorageError': []}, frame=[])
+R.contract(f'{LABK}.uncache_tasks', self_type='Obj[Lab]', params={'tasks': 'List[Inst]'},
+    ensures=[C("forall('Key', lambda k: (k in DIRS) == ((k in old(DIRS)) and not exists('Inst', lambda i: (i in tasks) and CACHEABLE(i) and (i.cache_key == k))))",
+               'exactly the named cacheable tasks\' entries are removed', serves=('C08',)),
+             C("forall('FId', lambda f: implies(not exists('Inst', lambda i: (i in tasks) and CACHEABLE(i) and (i.cache_key == fid_key(f))), ((f in FGOOD) == (f in old(FGOOD))) and implies(f in FGOOD, FGOOD[f] == old(FGOOD)[f]) and ((f in FBAD) == (f in old(FBAD)))))",
+               'no other entry\'s file changes', serves=('C08',))],
+    raises={'StorageError': [], 'OSError': []}, frame=FSFRAME,
+    candidates=["forall('Key', lambda k: (k in DIRS) == ((k in old(DIRS)) and not exists('Inst', lambda i: (i in __done__) and CACHEABLE(i) and (i.cache_key == k))))",
+                "forall('FId', lambda f: implies(not exists('Inst', lambda i: (i in __done__) and CACHEABLE(i) and (i.cache_key == fid_key(f))), ((f in FGOOD) == (f in old(FGOOD))) and implies(f in FGOOD, FGOOD[f] == old(FGOOD)[f]) and ((f in FBAD) == (f in old(FBAD)))))"])
+R.classes[LABK].fields['_storage'] = 'Storage'
+# the coordinator's cache test: its body is verified here; callers use the ghost name ucache(task) for the value it returns
+# while the task has not been executed (A-cache: nobody else writes the task's key meanwhile)
+R.contract(f'{TCK}.use_cache:body', self_type='Obj[TaskCoordinator]', params={'task': 'Inst'}, returns='Bool',
+    ensures=[C("result == ((not self.bust_cache) and CACHEABLE(task) and (task.cache_key in DIRS))", 'bust_cache makes every cache test false; otherwise the test is is_cached', serves=('C08', 'C03'))],
+    raises={'StorageError': []}, frame=[])
